@@ -1,6 +1,7 @@
 SPECIFICATION Spec
 CONSTANTS
   Versions = {768}
+  FullVersions = {768}
   MaxLen = 2
   InPlaceProfile = TRUE
 INVARIANTS Match
